@@ -7,7 +7,7 @@
     [sorts_to le r a] says: the run [r] returns [Ok b] (no panic, no hang) with [Permutation a b]
     and [Sorted le b].  [TotalPreorder cmp]: [cmp x y < 0 <-> 0 < cmp y x] and [cmp _ _ <= 0] is
     transitive (a Go comparator that is a total preorder; equal-comparing elements may differ). *)
-From Algo.C07 Require Import Model Spec ArrLemmas ProofsInsSel ProofsShell ProofsMerge ProofsHeap ProofsQuick ProofsQ3S ProofsMSDStr.
+From Algo.C07 Require Import Model Spec ArrLemmas ProofsInsSel ProofsShell ProofsMerge ProofsHeap ProofsQuick ProofsQ3S ProofsMSDStr ProofsLSD ProofsRef.
 Open Scope Z_scope.
 
 Section ComparisonSorts.
@@ -60,6 +60,11 @@ Proof. intros. apply Shuffle_perm. Qed.
     (bytewise lexicographic, a proper prefix first).  [Sorted str_le] + [Permutation] determine the
     output uniquely ([str_le] is antisymmetric), i.e. it is the natively sorted slice. *)
 
+(** LSDString sorts slices of strings that all have width [w]. *)
+Theorem C07_LSDString : forall (a : list str) (w : Z), 0 <= w ->
+  Forall is_str a -> Forall (fun s => len s = w) a -> sorts_to str_le (LSDString a w) a.
+Proof. exact LSDString_correct. Qed.
+
 Theorem C07_MSDString : forall a : list str, Forall is_str a -> sorts_to str_le (MSDString a) a.
 Proof. exact MSDString_correct. Qed.
 
@@ -71,6 +76,26 @@ Proof. exact Quick3WayString_correct. Qed.
 Theorem C07_Quick3WayStringCore : forall a : list str, Forall is_str a ->
   sorts_to str_le (Quick3WayStringCore a) a.
 Proof. exact Quick3WayStringCore_correct. Qed.
+
+(** The same, as equalities with the natively sorted slice ([ref_sort]: a functional insertion
+    sort with Go's [<=] on strings). *)
+Theorem C07_strings_native : forall (a : list str), Forall is_str a ->
+  MSDString a = Ok (ref_sort str_leb a) /\
+  (forall rnd, Quick3WayString rnd a = Ok (ref_sort str_leb a)) /\
+  (forall w, 0 <= w -> Forall (fun s => len s = w) a -> LSDString a w = Ok (ref_sort str_leb a)).
+Proof.
+  intros a Ha. split; [|split].
+  - apply sorts_to_str, MSDString_correct, Ha.
+  - intros rnd. apply sorts_to_str, Quick3WayString_correct, Ha.
+  - intros w Hw Hlen. apply sorts_to_str, LSDString_correct; assumption.
+Qed.
+
+(** * radixsort: machine integers, all 64-bit patterns ([int64]: [-2^63, 2^63); [uint64]: [0, 2^64)) *)
+Theorem C07_LSDInt : forall a : list Z, Forall int64 a -> sorts_to Z.le (LSDInt a) a.
+Proof. exact LSDInt_correct. Qed.
+
+Theorem C07_LSDUint : forall a : list Z, Forall uint64 a -> sorts_to Z.le (LSDUint a) a.
+Proof. exact LSDUint_correct. Qed.
 
 (** Non-vacuity: concrete runs (a comparator on pairs that ignores the second component). *)
 Example C07_example :
@@ -92,6 +117,10 @@ Print Assumptions C07_QuickCore.
 Print Assumptions C07_Quick3Way.
 Print Assumptions C07_Select.
 Print Assumptions C07_Shuffle.
+Print Assumptions C07_LSDString.
 Print Assumptions C07_MSDString.
 Print Assumptions C07_Quick3WayString.
 Print Assumptions C07_Quick3WayStringCore.
+Print Assumptions C07_strings_native.
+Print Assumptions C07_LSDInt.
+Print Assumptions C07_LSDUint.
